@@ -456,7 +456,20 @@ func (el *EventList) UnmarshalJSON(bts []byte) error {
 	if err != nil {
 		return err
 	}
+	if err = c.complete(); err != nil {
+		return err
+	}
 	el.uncompress(&c)
+	return nil
+}
+
+// complete reports an error for a list with an absent (null) value: such values cannot be hashed.
+func (c *compressedEventList) complete() error {
+	for _, e := range c.E {
+		if e == nil {
+			return errors.New("event list contains an empty value")
+		}
+	}
 	return nil
 }
 
@@ -468,6 +481,9 @@ func (el *EventList) UnmarshalCBOR(bts []byte) error {
 	var c compressedEventList
 	err := cbor.Unmarshal(bts, &c)
 	if err != nil {
+		return err
+	}
+	if err = c.complete(); err != nil {
 		return err
 	}
 	el.uncompress(&c)
@@ -482,6 +498,11 @@ func (el *EventList) Verify(acc *Accumulator) error {
 	// early returns
 	if count == 0 {
 		return nil
+	}
+	for i, event := range events {
+		if event == nil || event.E == nil {
+			return errors.Errorf("event chain element %d is incomplete", i)
+		}
 	}
 	// The link to the accumulator depends on acc, and the parent hash of the first event comes
 	// from outside the list: both are checked on every call. Only the internal consistency of
